@@ -77,7 +77,11 @@ fn typed_pool() -> Vec<(Kind, RefVal)> {
     }
     v
 }
-fn raw_pool() -> Vec<(u16, Vec<u8>)> {
+fn raw_pool() -> &'static Vec<(u16, Vec<u8>)> {
+    static POOL: std::sync::OnceLock<Vec<(u16, Vec<u8>)>> = std::sync::OnceLock::new();
+    POOL.get_or_init(make_raw_pool)
+}
+fn make_raw_pool() -> Vec<(u16, Vec<u8>)> {
     let mut v: Vec<(u16, Vec<u8>)> = (0..24u16).map(|i| (if i % 2 == 0 { 0x7f20 + i } else { 0xff20 + i }, vec![i as u8; (i as usize * 3) % 11])).collect();
     // boundary type codes: the reserved 0x0000 (the value of a default-initialised AttributeType),
     // the extremes, the comprehension boundary, and the neighbours of the sealing types
